@@ -517,14 +517,23 @@ func checkC15(c C15Case, o *h.Obs) *h.Fail {
 		x := c.X.Build()
 		xv := c.X.Val()
 		var gf float64
+		var gacc decimal.Accuracy
 		if c.Op == "float64f" {
-			gf, _ = x.Float64()
+			gf, gacc = x.Float64()
 		} else {
-			f32, _ := x.Float32()
+			var f32 float32
+			f32, gacc = x.Float32()
 			gf = float64(f32)
 		}
 		if math.Signbit(gf) != xv.Neg {
 			return h.Failf("sign", "%s(%v) = %v", c.Op, xv, gf)
+		}
+		if xv.Form == model.Finite && xv.Exp <= 400 && xv.Exp >= -400 && !math.IsInf(gf, 0) {
+			// whichever neighbour was returned, the accuracy is the sign of (returned - x): also inside the zone of
+			// known finding F-10 (all integers between 2^53 and 10^16 that no float64 holds are midpoints)
+			if want := decimal.Accuracy(new(big.Rat).SetFloat64(gf).Cmp(model.ToRat(xv))); gacc != want {
+				return h.Failf("accuracy", "%s(%v) = %v with accuracy %v, sign(returned - x) = %v", c.Op, xv, gf, gacc, want)
+			}
 		}
 		if f := floatModeIndependent(c); f != nil {
 			return f
@@ -908,7 +917,7 @@ func checkSetFloatExtreme(c C15Case, o *h.Obs, z *decimal.Decimal) *h.Fail {
 	return nil
 }
 
-const ruleC15 = "rapid-generated cases. SetFloat64: float64 bit patterns (uniform bits, subnormals, extremes, powers of two, small integers and dyadic fractions, NaN payloads, +-Inf, +-0) x receiver precision {0, 1-6, 15-19, 1-120, 700-800 (holds every expansion)} x modes x previous receiver contents: sign kept, +-0/+-Inf mapped to themselves, NaN => ErrNaN, exact when the expansion fits, else within 1 ulp of the correctly rounded value. SetFloat: big.Float of precision 1..2000 bits, exponents to +-3000 (quick) / +-30000 (thorough), +-0, +-Inf: same, tolerance 64 ulp. SetFloat at the ends of big.Float's own exponent range (binary exponent within 400 of +-2^31, mantissas with the top and often the lowest bit set, precisions around 64): the stored value must be finite, of the right sign, and within 64 units of the binary value when both are scaled into the ordinary range with 600-bit arithmetic. Float64/Float32: Decimals exactly halfway between two adjacent floats and halfway +- 10^-k (built from the float), exact expansions of floats (must come back bit for bit), values around MaxFloat / SmallestNonzero / the smallest normal, generic values with exponents inside and far outside the range: the returned bits must equal big.Rat.Float64/Float32 of the exact rational (correctly rounded, ties to even), accuracy == sign(returned - x), saturation to +-Inf / +-0; in the two razor zones where 'nearest' and the documented saturation rule disagree ((Max, Max+half ulp) and (Smallest/2, Smallest)) both answers are accepted and counted. Exact floats followed by zeros and one stray digit 1 .. 140 000 digits below (value unchanged, accuracy by the digit's sign); pairs of conversions whose powers of five differ by exactly 2^8 .. 2^17 (the second, of up to 131 000 digits, is checked: nothing remembered from one conversion may leak into the next). While the known finding F-10 (double rounding) is listed, float64/float32 cases whose value lies within 2^-6 / 2^-3 ulp of a float or of a midpoint are excluded by an input predicate and counted, and the same inputs are also run under a weaker oracle that holds there too (float64f/float32f: the result is one of the two floats enclosing x, sign preserved). Float: within 64 binary ulps at the destination's precision, sign and specials preserved, |exp| <= 5000; and (floatx) values of up to 60 digits with decimal exponents up to +-6.4e8, the limit of big.Float's own range, compared with digits x 10^e evaluated in 900-bit binary arithmetic (power of ten by squaring), same tolerance. Non-trivial = inexact conversion, halfway-adjacent input, subnormal or saturating result."
+const ruleC15 = "rapid-generated cases. SetFloat64: float64 bit patterns (uniform bits, subnormals, extremes, powers of two, small integers and dyadic fractions, NaN payloads, +-Inf, +-0) x receiver precision {0, 1-6, 15-19, 1-120, 700-800 (holds every expansion)} x modes x previous receiver contents: sign kept, +-0/+-Inf mapped to themselves, NaN => ErrNaN, exact when the expansion fits, else within 1 ulp of the correctly rounded value. SetFloat: big.Float of precision 1..2000 bits, exponents to +-3000 (quick) / +-30000 (thorough), +-0, +-Inf: same, tolerance 64 ulp. SetFloat at the ends of big.Float's own exponent range (binary exponent within 400 of +-2^31, mantissas with the top and often the lowest bit set, precisions around 64): the stored value must be finite, of the right sign, and within 64 units of the binary value when both are scaled into the ordinary range with 600-bit arithmetic. Float64/Float32: Decimals exactly halfway between two adjacent floats and halfway +- 10^-k (built from the float), exact expansions of floats (must come back bit for bit), values around MaxFloat / SmallestNonzero / the smallest normal, generic values with exponents inside and far outside the range: the returned bits must equal big.Rat.Float64/Float32 of the exact rational (correctly rounded, ties to even), accuracy == sign(returned - x), saturation to +-Inf / +-0; in the two razor zones where 'nearest' and the documented saturation rule disagree ((Max, Max+half ulp) and (Smallest/2, Smallest)) both answers are accepted and counted. Exact floats followed by zeros and one stray digit 1 .. 140 000 digits below (value unchanged, accuracy by the digit's sign); pairs of conversions whose powers of five differ by exactly 2^8 .. 2^17 (the second, of up to 131 000 digits, is checked: nothing remembered from one conversion may leak into the next). While the known finding F-10 (double rounding) is listed, float64/float32 cases whose value lies within 2^-6 / 2^-3 ulp of a float or of a midpoint are excluded by an input predicate and counted, and the same inputs are also run under a weaker oracle that holds there too (float64f/float32f: the result is one of the two floats enclosing x, sign preserved, accuracy == sign(returned - x) for whichever neighbour was returned). Float: within 64 binary ulps at the destination's precision, sign and specials preserved, |exp| <= 5000; and (floatx) values of up to 60 digits with decimal exponents up to +-6.4e8, the limit of big.Float's own range, compared with digits x 10^e evaluated in 900-bit binary arithmetic (power of ten by squaring), same tolerance. Non-trivial = inexact conversion, halfway-adjacent input, subnormal or saturating result."
 
 // floatNearMidpoint: x lies within 2^-6 (Float64) / 2^-3 (Float32) of the gap between two adjacent floats from
 // their midpoint: the zone where rounding through the intermediate 64/32-bit big.Float first (itself off by a few
